@@ -1,6 +1,7 @@
 (* The invariant of runs of Model/Producer.v and the C01 lemmas. *)
 From AV Require Import Base.Util Model.Producer Proofs.ProducerBase Proofs.ProducerC01Spec Proofs.ProducerC01Lists
   Proofs.ProducerC01Fires Proofs.ProducerC01Batch Proofs.ProducerC01Step Proofs.ProducerC01Inv Proofs.ProducerC01Run.
+From AV Require Proofs.ProducerInv Proofs.ProducerChoice.
 From Coq Require Import Lia.
 
 Arguments K_BROKER : simpl never.
@@ -14,7 +15,8 @@ Record Inv (c : cfg) (evs : list event) (tr : trace) (s : state) : Prop := {
   i_lt : forall sid, In sid (fired tr ++ outstanding s) -> 0 <= sid < nsend s;
   i_wf : phase_wf s;
   i_prod : match ph s with Sending pls cur => last_produce tr = Some (viewf pls cur) | _ => True end;
-  i_stop : stopping s = true -> ph s = Idle }.
+  i_stop : stopping s = true -> ph s = Idle;
+  i_ok : broken s = false }.
 
 Lemma Inv_pre : forall c evs tr s, Inv c evs tr s -> pre s.
 Proof.
@@ -57,11 +59,12 @@ Proof.
 Qed.
 
 Lemma Inv_step : forall c evs tr s e s' o,
-  Inv c evs tr s -> step c s e = (s', o) -> Inv c (evs ++ [e]) (tr ++ [(e, o)]) s'.
+  Inv c evs tr s -> honest_ev e = true -> ProducerInv.Inv s -> step c s e = (s', o) -> Inv c (evs ++ [e]) (tr ++ [(e, o)]) s'.
 Proof.
-  intros c evs tr s e s' o I H. pose proof (Inv_pre _ _ _ _ I) as PR.
-  destruct (step_ssum c s e s' o PR H) as [F UI UK UW UP UN US UNEW UJ].
-  destruct I as [IN IND IL IA IALL ILT IW IP IS].
+  intros c evs tr s e s' o I HE MI H. pose proof (Inv_pre _ _ _ _ I) as PR.
+  destruct (step_ssum c s e s' o PR HE H) as [F UI UK UW UP UN US UNEW UJ].
+  pose proof (ProducerInv.step_broken _ _ _ _ _ MI H) as SB.
+  destruct I as [IN IND IL IA IALL ILT IW IP IS IOK].
   assert (OP : outstanding (plus s e) = outstanding s ++ newid s e) by reflexivity.
   assert (FRESH : forall y, In y (newid s e) -> y = nsend s /\ takes_id e = true).
   { unfold newid; intros y Y. destruct (takes_id e); [destruct Y as [<- |[]]; auto|destruct Y]. }
@@ -99,6 +102,7 @@ Proof.
   - unfold prod_step in UP. destruct (ph s') eqn:P'; auto. rewrite last_produce_snoc.
     destruct UP as [[PS NP]|R]; [|apply R]. rewrite last_prod_none; auto. rewrite PS in IP; exact IP.
   - exact US.
+  - rewrite SB. destruct e; auto. destruct b; [discriminate|reflexivity].
 Qed.
 
 (* ------------------------------------------------------------------ runs *)
@@ -111,14 +115,18 @@ Proof.
   - destruct (step c s a) as [s1 o1]. rewrite IH. destruct (run c s1 evs) as [s2 tr]. destruct (step c s2 e); reflexivity.
 Qed.
 
-Lemma run_inv : forall c has_t api0 cache0 evs s tr,
+Lemma run_inv : forall c has_t api0 cache0 evs s tr, honest evs ->
   run c (init_state has_t api0 cache0) evs = (s, tr) -> Inv c evs tr s.
 Proof.
-  intros c has_t api0 cache0 evs. induction evs as [|e evs IH] using rev_ind; intros s tr H.
+  intros c has_t api0 cache0 evs. induction evs as [|e evs IH] using rev_ind; intros s tr HN H.
   - inv H. apply Inv_init.
   - rewrite run_snoc in H. destruct (run c _ evs) as [s1 tr1] eqn:E1. destruct (step c s1 e) as [s2 o] eqn:E2. inv H.
-    eapply Inv_step; eauto.
+    apply Forall_app in HN as [HN1 HN2]. inversion HN2; subst.
+    eapply Inv_step; eauto. apply (ProducerInv.reachable_inv c). exists has_t, api0, cache0, evs. rewrite E1. reflexivity.
 Qed.
+
+Lemma honest_split : forall evs1 e evs2, honest (evs1 ++ e :: evs2) -> honest evs1 /\ honest_ev e = true.
+Proof. intros evs1 e evs2 H. apply Forall_app in H as [H1 H2]. inversion H2; subst. auto. Qed.
 
 Lemma run_split : forall c evs s0 s tr1 e outs tr2,
   run c s0 evs = (s, tr1 ++ (e, outs) :: tr2) ->
@@ -138,39 +146,47 @@ Section C01.
 Variables (c : cfg) (has_t : bool) (api0 : Z) (cache0 : list (Z * (Z * bool))).
 Let s0 := init_state has_t api0 cache0.
 
-Lemma at_most_once : forall evs s tr, run c s0 evs = (s, tr) -> NoDup (fired tr).
+Lemma at_most_once : forall evs s tr, honest evs -> run c s0 evs = (s, tr) -> NoDup (fired tr).
 Proof.
-  intros evs s tr H. apply run_inv in H. apply i_nd in H. apply NoDup_app_inv in H; tauto.
+  intros evs s tr HN H. apply run_inv in H; auto. apply i_nd in H. apply NoDup_app_inv in H; tauto.
 Qed.
 
-Lemma resolved_when_quiescent : forall evs s tr, run c s0 evs = (s, tr) -> quiescent s ->
+Lemma resolved_when_quiescent : forall evs s tr, honest evs -> run c s0 evs = (s, tr) -> quiescent s ->
   forall x, In x (accepted 0 evs) -> In (s_id x) (fired tr).
 Proof.
-  intros evs s tr H (P & Q & _) x X. apply run_inv in H.
+  intros evs s tr HN H (P & Q & _) x X. apply run_inv in H; auto.
   destruct (i_all _ _ _ _ H x X) as [O|O]; auto. exfalso.
   apply (i_live _ _ _ _ H) in O as (y & Y & _). unfold live in Y. rewrite P, Q in Y. destruct Y.
 Qed.
 
 (* the justification of one outcome, in terms of the trace *)
-Lemma outcome_justified : forall evs s tr tr1 e outs tr2 sid oc,
+Lemma outcome_justified : forall evs s tr tr1 e outs tr2 sid oc, honest evs ->
   run c s0 evs = (s, tr) -> tr = tr1 ++ (e, outs) :: tr2 -> In (OOutcome sid oc) outs -> is_success oc = true ->
   exists v pls pl x, value_of e = Some v /\ last_produce tr1 = Some pls /\ In (payload_view pl) pls /\
     In x (p_sends pl) /\ In x (accepted 0 evs) /\ s_id x = sid /\ s_topic x = fst (p_tp pl) /\
+    s_choice x = snd (p_tp pl) /\
     match oc with
     | OResp t p err off => c_acks c <> 0 /\ err = 0 /\ p_tp pl = (t, p) /\ acked_with v (t, p) off
     | ONone => c_acks c = 0 /\ handed_over v (p_tp pl)
     | OFail _ _ => False
     end.
 Proof.
-  intros evs s tr tr1 e outs tr2 sid oc H -> I S.
+  intros evs s tr tr1 e outs tr2 sid oc HN H -> I S.
   destruct (run_split _ _ _ _ _ _ _ _ H) as (evs1 & evs2 & s1 & s1' & -> & R & ST).
-  apply run_inv in R. pose proof (Inv_pre _ _ _ _ R) as PR.
-  destruct (u_just _ _ _ _ _ (step_ssum c s1 e s1' outs PR ST) _ _ I S) as (pls & cur & v & P & V & J).
+  destruct (honest_split _ _ _ HN) as [HN1 HE].
+  assert (CH : ProducerChoice.ChInv s1).
+  { apply (ProducerChoice.reachable_choice c). exists has_t, api0, cache0, evs1. unfold s0 in R. rewrite R. reflexivity. }
+  apply run_inv in R; auto. pose proof (Inv_pre _ _ _ _ R) as PR.
+  destruct (u_just _ _ _ _ _ (step_ssum c s1 e s1' outs PR HE ST) _ _ I S) as (pls & cur & v & P & V & J).
   pose proof (i_prod _ _ _ _ R) as IP. rewrite P in IP.
   pose proof (i_wf _ _ _ _ R) as W. unfold phase_wf in W. rewrite P in W. destruct W as [[ND WT] CL].
+  unfold ProducerChoice.ChInv in CH. rewrite P in CH.
   assert (G : forall pl x, In pl pls -> In (p_tp pl) cur -> In x (p_sends pl) -> s_id x = sid ->
-              In (payload_view pl) (viewf pls cur) /\ In x (accepted 0 (evs1 ++ e :: evs2)) /\ s_topic x = fst (p_tp pl)).
+              In (payload_view pl) (viewf pls cur) /\ In x (accepted 0 (evs1 ++ e :: evs2)) /\ s_topic x = fst (p_tp pl) /\
+              s_choice x = snd (p_tp pl)).
   { intros pl x A B C D. splits.
+    4:{ rewrite Forall_forall in CH. specialize (CH _ A). unfold ProducerChoice.pl_choice in CH.
+        rewrite Forall_forall in CH. auto. }
     - unfold viewf. apply in_map. apply filter_In; split; auto. apply tpmem_In; auto.
     - rewrite accepted_app. apply in_or_app; left. apply (i_acc _ _ _ _ R). unfold live. rewrite P. simpl.
       apply in_or_app; right. apply In_all_sends; eauto.
@@ -178,10 +194,10 @@ Proof.
   destruct oc as [t p err off| |k f]; simpl in J; [| |discriminate].
   - destruct J as (A & -> & AK & pl & x & J1 & J2 & J3 & J4 & J5).
     assert (J3' : In (p_tp pl) cur) by (rewrite J2; auto).
-    destruct (G pl x J1 J3' J4 J5) as (G1 & G2 & G3).
+    destruct (G pl x J1 J3' J4 J5) as (G1 & G2 & G3 & G4).
     exists v, (viewf pls cur), pl, x. splits; auto.
   - destruct J as (A & pl & x & J1 & J2 & J3 & J4 & J5).
-    destruct (G pl x J1 J3 J4 J5) as (G1 & G2 & G3).
+    destruct (G pl x J1 J3 J4 J5) as (G1 & G2 & G3 & G4).
     exists v, (viewf pls cur), pl, x. splits; auto.
 Qed.
 
@@ -191,31 +207,32 @@ Proof.
   exists (flat_map msgs_of a), (flat_map msgs_of b). rewrite flat_map_app. simpl. reflexivity.
 Qed.
 
-Lemma success_truthful : forall evs s tr tr1 e outs tr2 sid t p err off,
+Lemma success_truthful : forall evs s tr tr1 e outs tr2 sid t p err off, honest evs ->
   run c s0 evs = (s, tr) -> tr = tr1 ++ (e, outs) :: tr2 -> In (OOutcome sid (OResp t p err off)) outs ->
   c_acks c <> 0 /\ err = 0 /\
   exists v pls ms x,
     value_of e = Some v /\ acked_with v (t, p) off /\
     last_produce tr1 = Some pls /\ In ((t, p), ms) pls /\
-    In x (accepted 0 evs) /\ s_id x = sid /\ s_topic x = t /\ contiguous x ms.
+    In x (accepted 0 evs) /\ s_id x = sid /\ s_topic x = t /\ s_choice x = p /\ contiguous x ms.
 Proof.
-  intros evs s tr tr1 e outs tr2 sid t p err off H E I.
-  destruct (outcome_justified _ _ _ _ _ _ _ _ _ H E I eq_refl) as (v & pls & pl & x & V & LP & IP & X1 & X2 & X3 & X4 & A & B & C & D).
+  intros evs s tr tr1 e outs tr2 sid t p err off HN H E I.
+  destruct (outcome_justified _ _ _ _ _ _ _ _ _ HN H E I eq_refl) as (v & pls & pl & x & V & LP & IP & X1 & X2 & X3 & X4 & X5 & A & B & C & D).
   splits; auto. exists v, pls, (flat_map msgs_of (p_sends pl)), x. splits; auto.
   - unfold payload_view in IP. rewrite C in IP. exact IP.
   - rewrite X4, C; reflexivity.
+  - rewrite X5, C; reflexivity.
   - apply contiguous_in; auto.
 Qed.
 
-Lemma success_none_truthful : forall evs s tr tr1 e outs tr2 sid,
+Lemma success_none_truthful : forall evs s tr tr1 e outs tr2 sid, honest evs ->
   run c s0 evs = (s, tr) -> tr = tr1 ++ (e, outs) :: tr2 -> In (OOutcome sid ONone) outs ->
   c_acks c = 0 /\
   exists v pls p ms x,
     value_of e = Some v /\ In x (accepted 0 evs) /\ s_id x = sid /\ handed_over v (s_topic x, p) /\
     last_produce tr1 = Some pls /\ In ((s_topic x, p), ms) pls /\ contiguous x ms.
 Proof.
-  intros evs s tr tr1 e outs tr2 sid H E I.
-  destruct (outcome_justified _ _ _ _ _ _ _ _ _ H E I eq_refl) as (v & pls & pl & x & V & LP & IP & X1 & X2 & X3 & X4 & A & B).
+  intros evs s tr tr1 e outs tr2 sid HN H E I.
+  destruct (outcome_justified _ _ _ _ _ _ _ _ _ HN H E I eq_refl) as (v & pls & pl & x & V & LP & IP & X1 & X2 & X3 & X4 & X5 & A & B).
   split; auto. exists v, pls, (snd (p_tp pl)), (flat_map msgs_of (p_sends pl)), x.
   assert (TP : p_tp pl = (s_topic x, snd (p_tp pl))) by (rewrite X4; destruct (p_tp pl); reflexivity).
   splits; auto.
@@ -225,19 +242,19 @@ Proof.
 Qed.
 
 (* every outcome of a step whose event does not acknowledge that send is a failure *)
-Lemma failure_is_failure : forall evs s tr tr1 e outs tr2 sid oc,
+Lemma failure_is_failure : forall evs s tr tr1 e outs tr2 sid oc, honest evs ->
   run c s0 evs = (s, tr) -> tr = tr1 ++ (e, outs) :: tr2 -> In (OOutcome sid oc) outs ->
   (forall x p, In x (accepted 0 evs) -> s_id x = sid -> acks_event c e (s_topic x, p) = false) ->
   exists k flag, oc = OFail k flag.
 Proof.
-  intros evs s tr tr1 e outs tr2 sid oc H E I NA.
+  intros evs s tr tr1 e outs tr2 sid oc HN H E I NA.
   destruct oc as [t p err off| |k f]; [| |eauto]; exfalso.
-  - destruct (success_truthful _ _ _ _ _ _ _ _ _ _ _ _ H E I) as (A & -> & v & pls & ms & x & V & AK & _ & _ & X1 & X2 & X3 & _).
+  - destruct (success_truthful _ _ _ _ _ _ _ _ _ _ _ _ HN H E I) as (A & -> & v & pls & ms & x & V & AK & _ & _ & X1 & X2 & X3 & _ & _).
     specialize (NA x p X1 X2). unfold acks_event in NA. rewrite V, X3 in NA.
     assert (EX : forall rs, In ((t, p), 0, off) rs -> existsb (fun r : tp * Z * Z => tp_eqb (fst (fst r)) (t, p) && (snd (fst r) =? 0)) rs = true).
     { intros rs R. apply existsb_exists. exists ((t, p), 0, off). split; auto. simpl. rewrite tp_eqb_refl; reflexivity. }
     apply Z.eqb_neq in A. destruct v; simpl in *; try tauto; rewrite A in NA; simpl in NA; rewrite EX in NA; auto; discriminate.
-  - destruct (success_none_truthful _ _ _ _ _ _ _ _ H E I) as (A & v & pls & p & ms & x & V & X1 & X2 & HO & _).
+  - destruct (success_none_truthful _ _ _ _ _ _ _ _ HN H E I) as (A & v & pls & p & ms & x & V & X1 & X2 & HO & _).
     specialize (NA x p X1 X2). unfold acks_event in NA. rewrite V in NA.
     apply Z.eqb_eq in A. destruct v; simpl in *; try tauto; rewrite A in NA; try discriminate.
     destruct HO as [_ HO]. apply tpmem_false in HO. rewrite HO in NA. discriminate.
@@ -281,14 +298,14 @@ Let s0 := init_state has_t api0 cache0.
 
 (* the produce attempts of the batch are used up (or the producer is stopping): whatever the client now answers,
    every send of the batch that has not fired yet fires in this very step *)
-Lemma limit_resolves : forall evs s tr pls cur v s' o,
+Lemma limit_resolves : forall evs s tr pls cur v s' o, honest evs ->
   run c s0 evs = (s, tr) -> ph s = Sending pls cur -> c_max c <= attempts s -> result_ok c cur v = true ->
   step c s (EResult v) = (s', o) ->
   forall x, In x (all_sends pls) -> In (s_id x) (outstanding s) -> In (s_id x) (oids o).
 Proof.
-  intros evs s tr pls cur v s' o R P L RO ST x X O.
-  apply run_inv in R. pose proof (Inv_pre _ _ _ _ R) as PR.
-  pose proof (u_fires _ _ _ _ _ (step_ssum c s (EResult v) s' o PR ST)) as F.
+  intros evs s tr pls cur v s' o HN R P L RO ST x X O.
+  apply run_inv in R; auto. pose proof (Inv_pre _ _ _ _ R) as PR.
+  pose proof (u_fires _ _ _ _ _ (step_ssum c s (EResult v) s' o PR eq_refl ST)) as F.
   assert (FS : fires s s' o).
   { eapply fires_eq_out; [|exact F]. unfold plus, newid; simpl. apply app_nil_r. }
   destruct (in_dec Z.eq_dec (s_id x) (oids o)) as [D|D]; auto. exfalso.
@@ -299,7 +316,34 @@ Proof.
   assert (DN : done = true) by (eapply handle_result_limit; [|exact E]; apply Z.leb_le; auto). subst done.
   destruct (apply_epi c s2 Fin) as [s3 o3] eqn:E3. inv ST. simpl in E3.
   destruct (handle_result_sum _ _ _ _ _ _ _ _ E RO W CL) as (_ & _ & _ & D2 & _).
-  apply finish_tsum in E3 as (sI & ot & _ & _ & _ & OI & _ & _ & T).
+  assert (BK2 : broken s2 = false).
+  { apply handle_result_ok in E as [[[_ _ _ _ _ _ K] _ _] _]. rewrite K. apply (p_ok _ PR). }
+  apply finish_tsum in E3; [|exact BK2]. destruct E3 as (sI & ot & _ & _ & _ & OI & _ & _ & T).
   apply (fires_sub _ _ _ (t_fires _ _ _ T)) in O'. rewrite OI in O'. eapply D2; eauto.
 Qed.
 End C01limit.
+
+(* ------------------------------------------------------------------ failure is failure, sharpened: only the send's own payload counts *)
+Section C01own.
+Variables (c : cfg) (has_t : bool) (api0 : Z) (cache0 : list (Z * (Z * bool))).
+Let s0 := init_state has_t api0 cache0.
+
+Lemma failure_is_failure_own : forall evs s tr tr1 e outs tr2 sid oc, honest evs ->
+  run c s0 evs = (s, tr) -> tr = tr1 ++ (e, outs) :: tr2 -> In (OOutcome sid oc) outs ->
+  (forall pls x p ms, last_produce tr1 = Some pls -> In x (accepted 0 evs) -> s_id x = sid ->
+                      In ((s_topic x, p), ms) pls -> contiguous x ms -> acks_event c e (s_topic x, p) = false) ->
+  exists k flag, oc = OFail k flag.
+Proof.
+  intros evs s tr tr1 e outs tr2 sid oc HN H E I NA.
+  destruct oc as [t p err off| |k f]; [| |eauto]; exfalso.
+  - destruct (success_truthful c has_t api0 cache0 _ _ _ _ _ _ _ _ _ _ _ _ HN H E I) as (A & -> & v & pls & ms & x & V & AK & LP & IP & X1 & X2 & X3 & _ & CT).
+    rewrite <- X3 in IP. specialize (NA pls x p ms LP X1 X2 IP CT). unfold acks_event in NA. rewrite V, X3 in NA.
+    assert (EX : forall rs, In ((t, p), 0, off) rs -> existsb (fun r : tp * Z * Z => tp_eqb (fst (fst r)) (t, p) && (snd (fst r) =? 0)) rs = true).
+    { intros rs R. apply existsb_exists. exists ((t, p), 0, off). split; auto. simpl. rewrite tp_eqb_refl; reflexivity. }
+    apply Z.eqb_neq in A. destruct v; simpl in *; try tauto; rewrite A in NA; simpl in NA; rewrite EX in NA; auto; discriminate.
+  - destruct (success_none_truthful c has_t api0 cache0 _ _ _ _ _ _ _ _ HN H E I) as (A & v & pls & p & ms & x & V & X1 & X2 & HO & LP & IP & CT).
+    specialize (NA pls x p ms LP X1 X2 IP CT). unfold acks_event in NA. rewrite V in NA.
+    apply Z.eqb_eq in A. destruct v; simpl in *; try tauto; rewrite A in NA; try discriminate.
+    destruct HO as [_ HO]. apply tpmem_false in HO. rewrite HO in NA. discriminate.
+Qed.
+End C01own.
